@@ -197,7 +197,7 @@ def _run_point(case, ctx):
         except Exception as exc:
             ctx.error("c05: zero representations", exc)
     # parse of the CSV / AIF export of an isotherm whose data carry information down to the 8th decimal (what the identifier resolves)
-    s8 = gen.point_spec(r, n=r.randint(3, 12), units=None, two_branches=False, extras=False, meta={}, decimals=8)
+    s8 = gen.point_spec(r, n=r.randint(3, 12), units=dict(gen.DEFAULT_UNITS, temperature_unit="°C") if case["seed"] % 2 else None, two_branches=False, extras=False, meta={}, decimals=8)
     s8["pressure"] = [round(x + 3e-7, 8) for x in s8["pressure"]]
     try:
         from pygaps.parsing.aif import isotherm_from_aif
